@@ -1363,7 +1363,7 @@ class Interp:
                 r = a.length(self, st)
                 if r is not NotImplemented:
                     return r
-            if isinstance(a, (bytes, str, list, tuple, dict, range)):
+            if isinstance(a, (bytes, str, list, tuple, dict, range, frozenset)):
                 if isinstance(a, (list, tuple)) and any(isinstance(x, S) and isinstance(x.t, tuple) and x.t[0] in ('star', 'maybe') for x in a):
                     return S(('len', term(a)), 'int')
                 return len(a)
@@ -1425,8 +1425,15 @@ class Interp:
                 if all(('global' in repr(args[1].t)) for _ in [0]):
                     pass
             return S(('isinstance', term(a), term(args[1])), 'bool')
+        if name in ('set', 'frozenset') and len(args) == 1 and not kwargs and isinstance(args[0], (list, tuple, frozenset)) and is_conc(args[0]):
+            try:
+                return frozenset(args[0])
+            except TypeError:
+                pass
         if name in ('list', 'tuple') and len(args) == 1:
             a = args[0]
+            if isinstance(a, frozenset):
+                return sorted(a, key=repr) if name == 'list' else tuple(sorted(a, key=repr))
             if isinstance(a, (list, tuple, range, bytes, str)):
                 return list(a) if name == 'list' else tuple(a)
             if isinstance(a, dict):
